@@ -29,6 +29,7 @@ const (
 	CloseEOF CloseMode = iota
 	CloseEIO
 	CloseStaysBlocked
+	CloseEOFWithErr // the read unblocks with EOF and Close itself reports an error (e.g. the peer had reset the socket)
 )
 
 // LossKind says how the connection dies at LossAt.
@@ -43,6 +44,9 @@ const (
 
 // ErrEIO is the non-EOF read error injected.
 var ErrEIO = fmt.Errorf("read /dev/ptmx: %w", syscall.EIO)
+
+// ErrCloseFailed is what Close returns in CloseEOFWithErr mode.
+var ErrCloseFailed = fmt.Errorf("close tcp 192.0.2.1:830: %w", syscall.ECONNRESET)
 
 // ErrWrite is the injected write error.
 var ErrWrite = fmt.Errorf("write: %w", syscall.EPIPE)
@@ -140,6 +144,9 @@ func (t *FakeTransport) Open(_ *transport.Args) error {
 func (t *FakeTransport) Close() error {
 	t.CloseCalls++
 	t.closed = true
+	if t.OnClose == CloseEOFWithErr {
+		return ErrCloseFailed
+	}
 	return nil
 }
 
@@ -235,7 +242,7 @@ func (t *FakeTransport) Actions() []sched.EnvAction {
 	}
 	if t.closed {
 		switch t.OnClose {
-		case CloseEOF:
+		case CloseEOF, CloseEOFWithErr:
 			return []sched.EnvAction{{Label: "rd:closed-eof", Do: func() { t.answer(nil, io.EOF) }}}
 		case CloseEIO:
 			return []sched.EnvAction{{Label: "rd:closed-eio", Do: func() { t.answer(nil, ErrEIO) }}}
